@@ -415,6 +415,12 @@ def run_check(prop, tier, seed, replay=None):
     print("%s %s: obligations %d/%d, cases %d (distinct non-trivial %d), disagreements %d, violations %d, %.1fs"
           % (prop, tier, cov["discharged"], cov["obligations"], total_cases, len(distinct), disagreements,
              len(seen), time.time() - t0))
+    # scratch inputs of this run (the replays that matter were written to out/<prop>/): keep the disk small
+    for f in os.listdir(workdir):
+        try:
+            os.remove(os.path.join(workdir, f))
+        except OSError:
+            pass
     return 1 if violations else 0
 
 
